@@ -187,6 +187,9 @@ func c16ListLaws(c *Ctx, dr *Driver, h *HistGen, g *Gen, docM map[string]interfa
 	}
 	pool = append(pool, h.val(), nil)
 	n := 1 + g.pick(4)
+	if g.pick(5) == 0 {
+		n = 12 + g.pick(30) // long lists
+	}
 	var xs []interface{} // Go operands
 	var xj []interface{} // protocol operands
 	for k := 0; k < n; k++ {
